@@ -526,7 +526,8 @@ def case_maxconn(ctx, idx, rng):
     dev = build_any_device(dspec)
     dp = dev_params(dev)
     dmin, nmax, rmax = dp["min_atom_distance"], dp["max_atom_num"], dp["max_radial_distance"]
-    n = max(1, min(120, pick(rng, [1, 2, 3, 6, 7, 8, 19, 20, 37] + ([nmax - 1, nmax, nmax, nmax + 1] if nmax else [50]))))
+    # (7, 19, 37, 61, 91 atoms fill whole hexagonal layers; one fewer / one more are the boundaries of the pattern)
+    n = max(1, min(120, pick(rng, [1, 2, 3, 6, 7, 8, 18, 19, 20, 36, 37, 60, 61, 90] + ([nmax - 1, nmax, nmax, nmax + 1] if nmax else [50]))))
     sp_pool = [None, None, dmin, up(dmin), up(dmin, -1), dmin + 1e-7, dmin - 1e-7, dmin * 1.5, dmin + 1.0, 2 * dmin + 0.3]
     if rmax is not None:
         layers = max(1, math.ceil((-3 + math.sqrt(9 + 12 * max(n - 1, 1))) / 6))
@@ -546,6 +547,10 @@ def case_maxconn(ctx, idx, rng):
     rids, coords = qubit_coords(reg)
     res = G.classify_register(coords, reg.dimensionality, dp)
     ctx.count("closure_registers_checked")
+    if len(coords) != n:
+        ctx.violation("closure", f"Register.max_connectivity({n}, {dev.name}, spacing={spacing!r}) returned {len(coords)} atoms",
+                      "max-connectivity-atom-count")
+        return
     e1 = call(dev.validate_register, reg)
     e2 = call(Sequence, reg, dev)
     for what, e in (("validate_register", e1), ("Sequence", e2)):
